@@ -3,6 +3,20 @@ import CoreBGP.Props.DecTie
 namespace CoreBGP.Props.DecTieC20
 open CoreBGP CoreBGP.Model CoreBGP.Gen CoreBGP.Lemmas.DecTie CoreBGP.Props.DecTie
 
+/-! the generated table, evaluated (a changed decision of these functions is reported here) -/
+private theorem d_ov0 : decision "peerOptions.validate" "if" 0 =
+    .and (.cmp "<" "p.holdTime" "time.Second*3") (.cmp "!=" "p.holdTime" "0") := by decide
+private theorem d_ov1 : decision "peerOptions.validate" "if" 1 = .or (.cmp "<" "p.port" "1") (.cmp ">" "p.port" "65535") := by
+  decide
+private theorem d_cv0 : decision "PeerConfig.validate" "if" 0 = .or (.cmp "==" "p.LocalAS" "0") (.cmp "==" "p.RemoteAS" "0") := by
+  decide
+private theorem d_cv1 : decision "PeerConfig.validate" "if" 1 =
+    .and (.not (.atom "opts.localAddress.IsValid()")) (.atom "p.RemoteAddress.IsValid()") := by decide
+private theorem d_cv2 : decision "PeerConfig.validate" "if" 2 = .cmp "!=" "localIsIPv4" "remoteIsIPv4" := by decide
+private theorem d_cv3 : decision "PeerConfig.validate" "if" 3 = .not (.atom "localIsIPv4") := by decide
+private theorem d_cv4 : decision "PeerConfig.validate" "if" 4 =
+    .or (.not (.atom "opts.localAddress.Is6()")) (.not (.atom "p.RemoteAddress.Is6()")) := by decide
+
 /-! ## C20: configuration validation -/
 
 def optionsEnv (c : PeerCfg) : Env :=
